@@ -29,27 +29,24 @@ Qed.
 Definition packet_panic_case (g : gossip) (ns : nstate) (s : psite) : Prop :=
   match s with
   | PS_bcast_nil_inner => g_var g = VDkg DInnerNil \/ exists b, g_var g = VDkg (DMetaNil b)
-  | PS_bundle_nil_inner | PS_bundle_nil_element | PS_variant_nil_inner => gossip_wire g = false
-  | PS_proposal_nil_leader =>
-      (g_var g = VProposal TNil \/ g_var g = VProposal TNilLeader) /\
-      valid_change (n_status ns) Proposed = true
-  | PS_left_state_proposal =>
-      g_var g = VProposal TReachesFinalGroup /\ n_fg_set ns = false /\
-      is_fresh (n_status ns) = false /\ valid_change (n_status ns) Proposed = true
+  | PS_bundle_nil_inner | PS_bundle_nil_element | PS_variant_nil_inner | PS_proposal_nil_terms =>
+      gossip_wire g = false
   | PS_abort_nil_leader =>
       g_var g = VAbort /\ n_leader_set ns = false /\ valid_change (n_status ns) Aborted = true
+  | PS_execute_nil_leader =>
+      g_var g = VExecute /\ n_leader_set ns = false /\ n_timed_out ns = false /\
+      (valid_change (n_status ns) Left = true \/ valid_change (n_status ns) Executing = true)
   end.
 
 Lemma decide_apply_panic : forall v ns deep s, decide_apply v ns deep = EPanic s ->
   match s with
   | PS_variant_nil_inner => v = VAccept true \/ v = VReject true
-  | PS_proposal_nil_leader =>
-      (v = VProposal TNil \/ v = VProposal TNilLeader) /\ valid_change (n_status ns) Proposed = true
-  | PS_left_state_proposal =>
-      v = VProposal TReachesFinalGroup /\ n_fg_set ns = false /\
-      is_fresh (n_status ns) = false /\ valid_change (n_status ns) Proposed = true
+  | PS_proposal_nil_terms => v = VProposal TNil
   | PS_abort_nil_leader =>
       v = VAbort /\ n_leader_set ns = false /\ valid_change (n_status ns) Aborted = true
+  | PS_execute_nil_leader =>
+      v = VExecute /\ n_leader_set ns = false /\ n_timed_out ns = false /\
+      (valid_change (n_status ns) Left = true \/ valid_change (n_status ns) Executing = true)
   | _ => False
   end.
 Proof.
@@ -59,16 +56,22 @@ Proof.
   - destruct (valid_change (n_status ns) Proposed) eqn:VC; simpl; [|discriminate].
     destruct t; try discriminate.
     + intro E; inversion E; auto.
-    + intro E; inversion E; auto.
     + destruct (is_fresh (n_status ns)) eqn:F; [destruct deep; discriminate|].
-      destruct (n_fg_set ns) eqn:G; simpl; [destruct deep; discriminate|].
-      intro E; inversion E; auto.
+      destruct (n_fg_set ns) eqn:G; simpl; [destruct deep; discriminate|discriminate].
   - destruct i; [intro E; inversion E; auto | destruct deep; discriminate].
   - destruct i; [intro E; inversion E; auto | destruct deep; discriminate].
   - destruct (valid_change (n_status ns) Aborted) eqn:VC; simpl; [|discriminate].
     destruct (n_leader_set ns) eqn:L; simpl; [destruct deep; discriminate|].
     intro E; inversion E; auto.
-  - destruct deep; discriminate.
+  - destruct (n_timed_out ns) eqn:TO; [discriminate|].
+    destruct (n_me_leaving ns && valid_change (n_status ns) Left) eqn:LV.
+    + apply andb_true_iff in LV as [_ LV].
+      destruct (n_leader_set ns) eqn:L; simpl; [destruct deep; discriminate|].
+      intro E; inversion E; auto.
+    + destruct (valid_change (n_status ns) Executing) eqn:VE; simpl; [|discriminate].
+      destruct (n_me_member ns); simpl; [|discriminate].
+      destruct (n_leader_set ns) eqn:L; simpl; [destruct deep; discriminate|].
+      intro E; inversion E; auto.
   - discriminate.
 Qed.
 
@@ -84,7 +87,8 @@ Proof.
   assert (AP : forall v, g_var g = v -> decide_apply v ns (g_deep_ok g) = EPanic s -> packet_panic_case g ns s).
   { intros v EV E. apply decide_apply_panic in E. unfold packet_panic_case, gossip_wire.
     destruct s; try contradiction; rewrite ?GN; try (rewrite EV; exact E).
-    destruct E as [E|E]; rewrite E in EV; rewrite EV; reflexivity. }
+    - destruct E as [E|E]; rewrite E in EV; rewrite EV; reflexivity.
+    - rewrite E in EV; rewrite EV; reflexivity. }
   destruct (g_var g) as [|t|i|i| | |d] eqn:GV; try (apply AP; reflexivity).
   destruct d as [| |b|id b]; simpl.
   - discriminate.
@@ -95,12 +99,35 @@ Proof.
     destruct S; subst s; reflexivity.
 Qed.
 
-(* for requests that can be put on the wire only four sites remain *)
+(* for packets that can be put on the wire three sites remain, and two of them need a DKG record
+   without leader *)
 Lemma packet_daemon_panic_wire : forall g ns exec s,
   gossip_wire g = true -> decide_packet_daemon g ns exec = EPanic s ->
-  s = PS_bcast_nil_inner \/ s = PS_proposal_nil_leader \/ s = PS_left_state_proposal \/ s = PS_abort_nil_leader.
+  s = PS_bcast_nil_inner \/ s = PS_abort_nil_leader \/ s = PS_execute_nil_leader.
 Proof.
   intros g ns exec s Wr E. apply packet_daemon_panic in E. destruct s; simpl in E; auto; congruence.
+Qed.
+
+(* on a node whose DKG record names a leader (every record written by the state machine does:
+   Proposed refuses proposals without leader, Proposing sets the proposer) the only panic a remote
+   packet can cause is the Dkg variant without inner packet / metadata *)
+Lemma packet_daemon_panic_wire_led : forall g ns exec s,
+  gossip_wire g = true -> n_leader_set ns = true -> decide_packet_daemon g ns exec = EPanic s ->
+  s = PS_bcast_nil_inner.
+Proof.
+  intros g ns exec s Wr L E. apply packet_daemon_panic in E. destruct s; simpl in E; auto; try congruence.
+  - destruct E as (_ & E & _). congruence.
+  - destruct E as (_ & E & _). congruence.
+Qed.
+
+(* regression: the two repaired sites are refusals now *)
+Lemma proposal_nil_leader_refused : forall ns deep, decide_apply (VProposal TNilLeader) ns deep = Reject.
+Proof. intros ns deep. unfold decide_apply. destruct (valid_change (n_status ns) Proposed); reflexivity. Qed.
+Lemma proposal_without_group_refused : forall ns deep, is_fresh (n_status ns) = false -> n_fg_set ns = false ->
+  decide_apply (VProposal TReachesFinalGroup) ns deep = Reject.
+Proof.
+  intros ns deep F G. unfold decide_apply. destruct (valid_change (n_status ns) Proposed); simpl; auto.
+  rewrite F, G. reflexivity.
 Qed.
 
 Lemma partial_total : forall p b, decide_partial p b = Answer \/ decide_partial p b = Reject.
